@@ -230,13 +230,29 @@ def render(op, side):
     raise ValueError(op)
 
 
+HUNG = []     # set by run_driver when the last implementation run was killed for not terminating
+
+
 def run_driver(cmd, lines, env=None, timeout=3600):
+    """Feed the op lines to a driver. A run that does not finish within `timeout` seconds is killed and what it had
+    printed so far is returned with rc 'timeout' (the op after the last complete block is the one that never returned)."""
     e = dict(os.environ)
     if env:
         e.update(env)
-    p = subprocess.run(cmd, input=('\n'.join(lines) + '\n').encode(), stdout=subprocess.PIPE,
-                       stderr=subprocess.PIPE, env=e, timeout=timeout)
-    return p.stdout.decode('latin-1'), p.returncode, p.stderr.decode('latin-1')
+    p = subprocess.Popen(cmd, stdin=subprocess.PIPE, stdout=subprocess.PIPE, stderr=subprocess.PIPE, env=e)
+    try:
+        out, err = p.communicate(('\n'.join(lines) + '\n').encode(), timeout=timeout)
+        return out.decode('latin-1'), p.returncode, err.decode('latin-1')
+    except subprocess.TimeoutExpired:
+        p.kill()
+        out, err = p.communicate()
+        HUNG.append(timeout)
+        return out.decode('latin-1'), 'timeout', err.decode('latin-1')
+
+
+def impl_timeout(nops):
+    """generous bound for the implementation driver: the unchanged tree does ~5 000 ops/s (floods: 30 000/s)"""
+    return int(os.environ.get('VERIF_IMPL_TIMEOUT', 0)) or 90 + nops // 100
 
 
 def parse_blocks(text):
@@ -262,7 +278,7 @@ def parse_blocks(text):
 
 def run_impl(ops, release=False):
     lines = [render(o, 'impl') for o in ops]
-    text, rc, err = run_driver([IMPL_BIN_REL if release else IMPL_BIN], lines, env={'MASSCANNED_VERIF': '1'})
+    text, rc, err = run_driver([IMPL_BIN_REL if release else IMPL_BIN], lines, env={'MASSCANNED_VERIF': '1'}, timeout=impl_timeout(len(lines)))
     blocks, partial = parse_blocks(text)
     return blocks, rc, err, partial
 
